@@ -28,7 +28,7 @@ type refAction struct {
 type refResolution struct {
 	Actions     []map[int]refAction // per state: terminal -> action (only for settled or conflict-free cells)
 	Unresolved  [][2]int            // cells that keep more than one action
-	Unspecified bool                // some cell's shifting productions carry different levels, or one level mixes @left and @right
+	Unspecified bool                // one level mixes @left and @right in a cell decided by associativity
 	Kinds       map[string]int      // census of conflict kinds
 }
 
@@ -84,8 +84,10 @@ func resolveRef(tbl *lalr.Table, c *gram.CFG) *refResolution {
 				continue
 			}
 			if len(levels) > 1 {
-				rr.Unspecified = true
-				rr.Kinds["shift-levels-differ(unspecified)"]++
+				// The productions wanting the shift disagree on the level:
+				// any choice would be a silent pick, the conflict stands.
+				rr.Kinds["shift-levels-differ"]++
+				rr.Unresolved = append(rr.Unresolved, [2]int{si, term})
 				continue
 			}
 			shiftPrec := c.Prods[cell.ShiftProds[0]].Prec
